@@ -39,11 +39,14 @@ pub fn request(_seed: u64) -> usize {
         let listener = TcpListener::bind("127.0.0.1:0").await.expect("bind");
         let port = listener.local_addr().unwrap().port();
         unsafe { std::env::set_var("PASSAGE_VERIF_SESSION_URL", format!("http://127.0.0.1:{port}")); }
-        let adapter = MojangAdapter::default().with_server_id("srv".to_string());
         let secret = b"verysecuresecret";
         let key = b"publickeybytes";
-        let expect_hash = minecraft_hash("srv", secret, key);
-        for name in names {
+        let server_ids = ["srv", "", " lobby", "lobby ", " lobby ", "passage-eu1\n", "\tx", "Srv"];
+        for (ni, name) in names.iter().copied().enumerate() {
+            // the configured server id enters the hash exactly as configured (no trimming, no case folding)
+            let server_id = server_ids[ni % server_ids.len()];
+            let adapter = MojangAdapter::default().with_server_id(server_id.to_string());
+            let expect_hash = reference_hash(server_id, secret, key);
             let accept = tokio::spawn({
                 let l = &listener as *const TcpListener as usize;
                 async move {
@@ -81,6 +84,31 @@ pub fn request(_seed: u64) -> usize {
         }
     });
     found
+}
+
+/// independent reference: signed hex of SHA-1(server id ++ secret ++ key) (two's complement, minimal digits)
+fn reference_hash(server_id: &str, secret: &[u8], key: &[u8]) -> String {
+    use sha1::{Digest, Sha1};
+    let mut h = Sha1::new();
+    h.update(server_id.as_bytes());
+    h.update(secret);
+    h.update(key);
+    let mut d: Vec<u8> = h.finalize().to_vec();
+    let neg = d[0] & 0x80 != 0;
+    if neg {
+        let mut carry = true;
+        for b in d.iter_mut().rev() {
+            *b = !*b;
+            if carry {
+                let (v, c) = b.overflowing_add(1);
+                *b = v;
+                carry = c;
+            }
+        }
+    }
+    let hex: String = d.iter().map(|b| format!("{b:02x}")).collect();
+    let t = hex.trim_start_matches('0');
+    format!("{}{}", if neg { "-" } else { "" }, if t.is_empty() { "0" } else { t })
 }
 
 /// C11: published vectors of Minecraft's signed SHA-1 hex digest, through the real minecraft_hash
